@@ -825,7 +825,7 @@ def build_jobs(ctx):
             jobs.append((wdir, name.replace('.', '_'), data, offs, poffs, watchdog))
         else:
             # every byte of the file for the scanner, in chunks (one job and one Coq file each)
-            pstride = 64 if len(data) <= 40000 else 256
+            pstride = 64 if len(data) <= 40000 else 512
             tail = boundary_and_tail_offsets(data, rng, max_boundaries=None, nrandom_lines=0)
             pall = sorted(set(range(rng.randrange(pstride), len(data), pstride)) | {len(data)}
                           | set(rng.sample(sorted(tail), min(60, len(tail)))))
@@ -847,7 +847,7 @@ def build_jobs(ctx):
         poffs = sorted(rng.sample(offs, min(25 if quick else 600, len(offs)))) + [len(data)]
         jobs.append((wdir, name, data, offs, poffs, watchdog))
         ctx.count('edition_variant_listings')
-    nsyn = 40 if quick else 300
+    nsyn = 40 if quick else 150
     for idx in range(nsyn):
         name, data = synth_scanner_listing(rng, idx)
         offs = list(range(0, len(data) + 1))
